@@ -8,6 +8,7 @@ import (
 	"maps"
 	"slices"
 	"strings"
+	"time"
 
 	"github.com/honeycombio/refinery/config"
 	jsoniter "github.com/json-iterator/go"
@@ -939,7 +940,7 @@ func (p Payload) MarshalMsg(buf []byte) ([]byte, error) {
 
 		buf = msgp.AppendString(buf, key)
 		var err error
-		buf, err = msgp.AppendIntf(buf, value)
+		buf, err = appendValue(buf, value)
 		if err != nil {
 			return buf, err
 		}
@@ -991,6 +992,35 @@ func (p Payload) MarshalMsg(buf []byte) ([]byte, error) {
 	buf[startLen+2] = byte(actualCount)
 
 	return buf, nil
+}
+
+// appendValue is msgp.AppendIntf, except that a time.Time (a msgpack timestamp the client sent in a
+// field we memoized) is written back as the standard msgpack timestamp extension; AppendIntf would
+// use msgp's private time extension (5), which nothing but msgp can read.
+func appendValue(buf []byte, v any) ([]byte, error) {
+	var err error
+	switch t := v.(type) {
+	case time.Time:
+		return msgp.AppendTimeExt(buf, t), nil
+	case []any:
+		buf = msgp.AppendArrayHeader(buf, uint32(len(t)))
+		for _, e := range t {
+			if buf, err = appendValue(buf, e); err != nil {
+				return buf, err
+			}
+		}
+		return buf, nil
+	case map[string]any:
+		buf = msgp.AppendMapHeader(buf, uint32(len(t)))
+		for k, e := range t {
+			buf = msgp.AppendString(buf, k)
+			if buf, err = appendValue(buf, e); err != nil {
+				return buf, err
+			}
+		}
+		return buf, nil
+	}
+	return msgp.AppendIntf(buf, v)
 }
 
 // TODO implement Sizer so buffer can be correctly presized
